@@ -110,6 +110,14 @@ func runC03Conc(r *mc.Report, e *Env) {
 		var out string
 		outcomes := map[string]int{}
 		d.Body = func(c *mc.Ctx) { out = c03ConcRun(r, sc, c) }
+		if freeRuns > 0 { // race-detector pass: no exploration, the bodies run freely
+			for i := 0; i < freeRuns; i++ {
+				mc.Replay(nil, d.Body)
+				r.Exec("free|" + sc.Name + "|" + out)
+			}
+			r.Count("free_running_executions", int64(freeRuns))
+			continue
+		}
 		d.After = func(c *mc.Ctx) {
 			if c.Diverged != "" {
 				r.EngineError("schedule replay diverged in " + sc.Name + ": " + c.Diverged)
